@@ -419,4 +419,4 @@ def r03_6(ctx):
 
 
 def run(ctx):
-    return [r03_1(ctx), r03_2(ctx), r03_3(ctx), r03_4(ctx), r03_5(ctx)]  # R03_6_PENDING: r03_6 is enabled together with the /repo repair (findings/pending)
+    return [r03_1(ctx), r03_2(ctx), r03_3(ctx), r03_4(ctx), r03_5(ctx), r03_6(ctx)]
